@@ -10,14 +10,31 @@ pub fn parse_keyword<S: TexlangState>(
     input: &mut vm::ExpandedStream<S>,
     keyword: &str,
 ) -> txl::Result<bool> {
+    parse_keyword_impl(input, keyword, true)
+}
+
+fn parse_keyword_impl<S: TexlangState>(
+    input: &mut vm::ExpandedStream<S>,
+    keyword: &str,
+    skip_spaces: bool,
+) -> txl::Result<bool> {
     let Some(c) = keyword.chars().next() else {
         // keyword is empty
         return Ok(true);
     };
-    let Some(token) = input.next()? else {
+    let Some(mut token) = input.next()? else {
         // input ended, keyword does not match
         return Ok(false);
     };
+    if skip_spaces {
+        // TeX.2021.407: spaces before a keyword are skipped (and not restored).
+        while let token::Value::Space(_) = token.value() {
+            token = match input.next()? {
+                None => return Ok(false),
+                Some(token) => token,
+            };
+        }
+    }
     if token.value() != token::Value::Letter(c.to_ascii_lowercase())
         && token.value() != token::Value::Letter(c.to_ascii_uppercase())
     {
@@ -25,7 +42,7 @@ pub fn parse_keyword<S: TexlangState>(
         return Ok(false);
     }
     // this character matched; now try to match the result of keyword
-    let result = parse_keyword(input, &keyword[c.len_utf8()..]);
+    let result = parse_keyword_impl(input, &keyword[c.len_utf8()..], false);
     if let Ok(false) = result {
         // some later character did not match, reverse consuming the token.
         input.back(token);
